@@ -130,6 +130,9 @@ def opaqueLoopGroups : List (String × List LoopKey) := [
     ("p2p", "writeTo", 0, "cond", "for totalBytesWrtie < len(bytes) && err == nil", "opaque"),
     ("p2p", "readFrom", 0, "cond", "for totalBytesRead < headerSize && err == nil", "opaque"),
     ("p2p", "readFrom", 1, "cond", "for totalContentBytesRead < int(size) && err == nil", "opaque")]),
+  ("walk of a finite parsed document without recursion (depth guard of dataParse, /repo 14409e8): every step follows a child, sibling or parent link in document order, each node is entered and left once", [
+    ("dosnode", "xmlDepthExceeds", 0, "count", "for n != nil", "opaque"),
+    ("dosnode", "xmlDepthExceeds", 1, "cond", "for n != root && n.NextSibling == nil", "opaque")]),
   ("node level, not a pipeline goroutine: reconnect to the chain node at most 10 times, join the p2p network at most 10 times, read a file to its end", [
     ("dosnode", "DosNode.onchainLoop", 6, "forever", "for", "opaque"),
     ("dosnode", "DosNode.Start", 1, "forever", "for", "opaque"),
